@@ -18,6 +18,19 @@ def os_view(d):
 
 
 def main():
+    # the advertised name is whatever path the run was started / resumed with: the default <uuid>.dat and a
+    # snapshot that was renamed before resuming (MPSBackend.resume sets impl.autosave_file to the given path)
+    for advertised in (None, "checkpoint.pkl", "state"):
+        rc = scenario(advertised)
+        if rc:
+            return rc
+    print("NOT-REPRODUCED: the advertised autosave stayed loadable at every injected crash point; resume works from every "
+          "crash-consistent directory (truncated / empty / complete temporaries); advertised names: default .dat, "
+          "checkpoint.pkl, a name without suffix")
+    return 0
+
+
+def scenario(advertised):
     import torch
     from native_util import patch_pulser_observable, make_sequence_data
     if patch_pulser_observable():
@@ -32,10 +45,16 @@ def main():
         cfg = MPSConfig(autosave_dt=11, observables=[], optimize_qubit_ordering=False)
         impl = MPSBackendImpl(cfg, make_sequence_data(3, 3))
         impl.init()
+        if advertised is not None:
+            import pathlib
+            impl.autosave_file = pathlib.Path(work) / advertised
         impl.last_save_time = -1e18
         impl.save_simulation()                      # first autosave completes
         adv = impl.autosave_file
-        assert adv.is_file()
+        if not adv.is_file():
+            print(f"REPRODUCED: advertised autosave name '{adv.name}': after a COMPLETED save_simulation() no file exists under "
+                  f"the advertised name; the directory holds {sorted(os.listdir(work))}")
+            return 1
         # ---- the reader: every directory state a crashed autosave can leave behind must be resumable -------
         good = adv.read_bytes()
         leftovers = [("no temporaries", {}),
@@ -137,8 +156,6 @@ def main():
             except Exception as e:
                 print(f"  MPSBackend.resume(advertised) -> {type(e).__name__}: {e}")
             return 1
-        print("NOT-REPRODUCED: the advertised autosave stayed loadable at every injected crash point; resume works from every "
-              "crash-consistent directory (truncated / empty / complete temporaries)")
         return 0
     finally:
         os.chdir(cwd)
